@@ -243,8 +243,15 @@ def directed(sid0, tol_us):
     return out
 
 
-def scenario_events(lines, sc):
-    return [json.loads(ln) for ln in lines if ('"sc":%d,' % sc) in ln or ('"sc":%d}' % sc) in ln]
+def index_by_scenario(path):
+    by = {}
+    with open(path) as f:
+        for ln in f:
+            ln = ln.strip()
+            if ln:
+                e = json.loads(ln)
+                by.setdefault(e["sc"], []).append(e)
+    return by
 
 
 def run(ctx):
@@ -275,6 +282,10 @@ def run(ctx):
         job("check", proto, "mc-%s-late-sdwaits" % proto,
             defs(proto, 5 if thorough else 2, ALPHA[proto], maxatt=3, backoffs="{0, 1}", late=True, sdint=False), timeout=1500)
         if thorough:
+            # one more attempt (scripts of length 5)
+            for maxel in (0, 2):
+                job("export", proto, "mc-%s-me%d-a5" % (proto, maxel), defs(proto, maxel, ALPHA[proto], maxatt=5, maxclock=30),
+                    want_edges=True, timeout=3000)
             job("check", proto, "mc-%s-late-me0" % proto, defs(proto, 0, ALPHA[proto], maxatt=4, backoffs="{0, 1}", late=True),
                 timeout=3000)
             job("check", proto, "mc-%s-backoff2" % proto,
@@ -330,7 +341,7 @@ def run(ctx):
     phases["tlc"] = round(time.time() - t_start, 1)
 
     # ------------------------------------------------------------ spec -> code: behaviours as collector scripts
-    per_proto = 1500 if thorough else 210
+    per_proto = 4000 if thorough else 210
     scenarios = []
     sid = 1
     uncovered = 0
@@ -370,7 +381,7 @@ def run(ctx):
     t1 = time.time()
     runs.append((tf, res, "scripts", {s["id"]: s for s in scenarios}))
     # ------------------------------------------------------------ code -> spec: seeded random scripts / configs
-    n = 3000 if thorough else 300
+    n = 8000 if thorough else 300
     tf2 = os.path.join(ctx.work, "trace-random.ndjson")
     rf2 = os.path.join(ctx.work, "res-random.json")
     ctx.run([binp, "random", "-n", str(n), "-out", tf2, "-res", rf2, "-par", "160", "-idbase", str(sid)], timeout=3000)
@@ -394,14 +405,14 @@ def run(ctx):
             ctx.add_samples(res["samples"][-1:])
         else:
             ctx.add_samples(res["samples"][:1])
-        lines = open(tf).read().splitlines() if viols else []
+        by_sc = index_by_scenario(tf) if viols else {}
         hard_by_sc = {}
         for v in viols:
             if v["v"]["kind"] != "prediction-mismatch":
                 hard_by_sc.setdefault(v["sc"], set()).add(v["v"]["kind"])
         for v in viols:
             vv = v["v"]
-            evs = scenario_events(lines, v["sc"])
+            evs = by_sc.get(v["sc"], [])
             cfg = next((e for e in evs if e["ev"] == "Cfg"), {})
             kinds[vv["kind"]] = kinds.get(vv["kind"], 0) + 1
             if vv["kind"].startswith("x-harness"):
